@@ -573,3 +573,8 @@ def run(ctx, rep):
     exemption(R, rep)
     override_precedence(R, rep)
     merge_values(R, rep)
+    # "a disposal's quantity and proceeds equal the day's sales": every sale line reaches the matcher — nothing thins the list of
+    # transactions (shared with C02-R10); `dedup()` after the sort drops the second of two identical fills, the disposal then shows
+    # 15 shares where 25 were sold (seeded change C04-s8)
+    import rules.c02 as c02
+    c02.every_line_counts(R, rep, "R9")
